@@ -25,6 +25,7 @@ RULE = (
     'dot == sum of numpy.vdot over leaves (conjugating the first argument); *_like reproduce treedef, shapes, dtypes '
     '(and fill value; random ones: bounds, determinism in the key, different leaves get different draws). '
     'non-trivial = a non-commutative operator with a reflected operand, or mixed dtypes, or a complex dot.'
+    ' Also: every component of an arithmetic result equals, dtype and sign of zero included, the same operation on that component alone, for the operand as given and (Python scalars) for every equal Python scalar of another type (2 / 2.0 / 2+0j, True / 1, 0.0 / -0.0); dot(x, x) with the same object; dot on leaves of 1023-65536 elements.'
 )
 ASSUMPTIONS = [
     'NumPy ndarrays of rank >= 1 as the other operand are not generated (NumPy dispatch pre-empts the container and returns an object array)',
